@@ -966,6 +966,24 @@ func (r *run) malformedProtos(cls, pfx string) []string {
 	case "wrappedShort":
 		c, _ := nodetls.BreakIntoNextProtos(nodeenrollment.FetchNodeCredsNextProtoV1Prefix, r.validFetchB64(true))
 		return c
+	case "unknownToken", "garbageToken":
+		// a well-signed fetch request presenting a well-formed activation token the server does not hold (used up, or
+		// never issued), or nonce bytes that are neither 32 long nor a token
+		nonce := "tf"
+		if cls == "garbageToken" {
+			nonce = "tg"
+		}
+		info, err := r.srv.W.BuildInfo(world.FetchSpec{K: "kx", E: "e1", Nonce: nonce})
+		if err != nil {
+			panic(err)
+		}
+		req, err := r.srv.W.SignInfo(info, "kx")
+		if err != nil {
+			panic(err)
+		}
+		bb, _ := proto.Marshal(req)
+		c, _ := nodetls.BreakIntoNextProtos(nodeenrollment.FetchNodeCredsNextProtoV1Prefix, base64.RawStdEncoding.EncodeToString(bb))
+		return c
 	}
 	return []string{p}
 }
